@@ -13,11 +13,34 @@ LEVEL_TEXT = {
            "what it accepts denotes Python's x[i1:i2:step], every touched index is in bounds, copies of slice objects denote the same elements, "
            "assignment = gather-then-scatter with count check. Tie: constructor regenerated from slice.h each run (translator) + exhaustive-box "
            "correspondence of the assignment model under ASan/UBSan. Unbounded in n, which the exhaustive box cannot reach.",
+    "C10": "Theorems for EVERY history, EVERY capacity >= 1 and EVERY plan-construction function: the LRU container keeps "
+           "'no duplicate key, at most cap entries'; after any history the cache holds exactly the cap most recently used lengths of the "
+           "flattened request log (nested requests of plan constructors included); every request returns the plan a fresh thread would build. "
+           "Tie: lock-step correspondence of both caches' key lists (DSPLIB_VERIF hook) after every request of every enumerated history, "
+           "bit-exact comparison of every result with the fresh-thread result; bypass set, MAX_DFT_SIZE and default cache size regenerated.",
 }
 
 NOT_CLAIMED = {}
 
 PROPS = {
+    "C10": {
+        "gen": ["Consts"],
+        "lean_props": "DspVerif.Props.C10",
+        "harness": [{"src": "c10.cpp", "cfg": "rel"},
+                    {"src": "c10.cpp", "cfg": "rel", "cache_size": 1, "tiers": ["thorough"]},
+                    {"src": "c10.cpp", "cfg": "rel", "cache_size": 2, "tiers": ["thorough"]}],
+        "rule": "all request histories of length <= L over three 6..8-letter alphabets of transform calls (complex, real, mixed incl. ifft/irfft/czt), "
+                "with and without long-lived plan objects, plus random 400..2000-request histories over 40 lengths; each history in a fresh thread; "
+                "distinct = distinct histories (every enumerated sequence is different); non-trivial = all",
+        "technique": "Lean 4 refinement proof (LRU list -> move-to-front spec -> most-recently-used characterisation) + lock-step correspondence through a read-only hook",
+        "level_note": "std::list/unordered_map/shared_ptr are modelled by an association list with immutable values; which requests a plan constructor issues "
+                      "(childrenC/childrenR) is hand-modelled and validated only by the correspondence run; plan construction is assumed to be a function of the length (checked bit-exactly on the enumerated histories)",
+        "trusted_base": TB_COMMON + [
+            "hook commit in /repo (DSPLIB_VERIF): verif_fft_cache_keys / verif_rfft_cache_keys / verif_fft_cache_capacity",
+            "plan construction deterministic in the length (`mk : Nat -> plan`): assumed by the theorems, observed bit-exactly by the harness",
+        ],
+        "assumptions": ["thread_local caches: one cache pair per thread; each history runs in a fresh std::thread"],
+    },
     "C04": {
         "technique": "Lean 4 proof over a constructor model regenerated from slice.h by cxx2lean, plus exhaustive ASan correspondence of the hand-written assignment model",
         "level_note": "int modelled as unbounded Int (no_overflow box |i|,n <= 2^30); memcpy/memmove/std::copy aliasing behaviour is exhibited only by the ASan correspondence run; translator and harness are trusted",
